@@ -26,7 +26,7 @@ use std::{
     sync::atomic::{AtomicU64, Ordering},
 };
 
-use parking_lot::Mutex;
+use crate::sync_compat::Mutex;
 use serde::{Deserialize, Serialize};
 use tracing::instrument;
 
